@@ -27,6 +27,7 @@ import (
 	"sort"
 	"strings"
 	"sync"
+	"time"
 
 	"github.com/jdillenkofer/pithos/internal/storage"
 	"github.com/jdillenkofer/pithos/internal/storage/middlewares/conditional"
@@ -103,6 +104,86 @@ func (r *recorder) stop() map[string]any {
 	return out
 }
 
+const staleETag = "00000000000000000000000000000000"
+
+// execCopySC executes a CopyObject / UploadPartCopy that carries copy-source conditions
+// (call field "sc" = {im, inm, ums, ms}, each absent | pass | fail) THROUGH the middleware - pdrv's
+// interpreter does not know these options - and emits the event in pdrv's format.  The conditions are
+// concretised from what the middleware itself reports for the source (ETag, Last-Modified):
+//   im  (if-match)             pass: that ETag            fail: a stale ETag
+//   inm (if-none-match)        pass: a stale ETag         fail: that ETag
+//   ums (if-unmodified-since)  pass: Last-Modified + 1 h  fail: Last-Modified - 1 h
+//   ms  (if-modified-since)    pass: Last-Modified - 1 h  fail: Last-Modified + 1 h
+func execCopySC(it *pdrv.Interp, st storage.Storage, c pdrv.Call) {
+	ctx := it.Context()
+	sb, sk := it.RealBucket(c.Str("sb")), it.RealKey(c.Str("sk"))
+	b, k := it.RealBucket(c.Str("b")), it.RealKey(c.Str("k"))
+	var srcVid *string
+	if v := c.Int("svid"); v >= 0 {
+		srcVid = it.RealVid(v)
+	}
+	etag, lm := staleETag+"ff", time.Now()
+	if o, err := st.HeadObject(ctx, sb, sk, &storage.HeadObjectOptions{VersionID: srcVid}); err == nil && o != nil {
+		etag, lm = o.ETag, o.LastModified
+	}
+	sc := c["sc"].(map[string]any)
+	kind := func(f string) string { s, _ := sc[f].(string); return s }
+	var cond storage.CopySourceConditions
+	stale := staleETag
+	before, after := lm.Add(-time.Hour), lm.Add(time.Hour)
+	switch kind("im") {
+	case "pass":
+		cond.IfMatch = &etag
+	case "fail":
+		cond.IfMatch = &stale
+	}
+	switch kind("inm") {
+	case "pass":
+		cond.IfNoneMatch = &stale
+	case "fail":
+		cond.IfNoneMatch = &etag
+	}
+	switch kind("ums") {
+	case "pass":
+		cond.IfUnmodifiedSince = &after
+	case "fail":
+		cond.IfUnmodifiedSince = &before
+	}
+	switch kind("ms") {
+	case "pass":
+		cond.IfModifiedSince = &before
+	case "fail":
+		cond.IfModifiedSince = &after
+	}
+	res := map[string]any{"err": "", "vid": -1, "dm": false, "uid": -1}
+	ev := map[string]any{"call": map[string]any(c), "res": res, "fault": "none"}
+	var err error
+	switch c.Str("op") {
+	case "CopyObject":
+		opts := it.CopyOptions(c)
+		opts.CopySourceConditions = cond
+		var r *storage.CopyObjectResult
+		r, err = st.CopyObject(ctx, sb, sk, b, k, opts)
+		if err == nil {
+			res["vid"] = 0
+			if r.VersionID != nil {
+				res["vid"] = it.ModelVid(*r.VersionID)
+			}
+			ev["res_etag"] = r.ETag
+		}
+	case "UploadPartCopy":
+		opts := &storage.UploadPartCopyOptions{SourceVersionID: srcVid, CopySourceConditions: cond}
+		_, err = st.UploadPartCopy(ctx, sb, sk, b, k, it.RealUid(c.Int("u")), int32(c.Int("n")), opts)
+	default:
+		must(fmt.Errorf("copy-source conditions on %s", c.Str("op")))
+	}
+	res["err"] = pdrv.ErrKind(err)
+	if it.Hook != nil {
+		it.Hook(ev)
+	}
+	it.W.Emit(ev)
+}
+
 func main() {
 	if len(os.Args) < 5 || os.Args[1] != "run" {
 		must(fmt.Errorf("usage: conditional run <dir> <programs> <trace>"))
@@ -175,6 +256,10 @@ func main() {
 		w.Emit(map[string]any{"call": map[string]any{"op": "Config"}, "config": p.Config, "prog": p.ID})
 		for _, c := range p.Calls {
 			rec.start()
+			if _, ok := c["sc"]; ok {
+				execCopySC(it, mw, c)
+				continue
+			}
 			it.Exec(c)
 		}
 		must(mw.Stop(ctx))
